@@ -52,6 +52,7 @@ type leechH struct {
 	note    map[string]int
 	stopped bool
 	armed   bool
+	expect  bool // an honest seed alone served everything: completion is due
 }
 
 func statusCode(s string) int64 {
@@ -683,13 +684,39 @@ func (h *leechH) finish() {
 		}
 		p = len(h.peers) - 1
 	}
+	if !h.usable(p) {
+		return
+	}
+	alone := h.r.Intn(2) == 0
+	if alone { // everybody else goes away
+		for k, q := range h.peers {
+			if k == p || q.gone || q.vp.Pe.Closed || q.blocked {
+				continue
+			}
+			q.vp.Gone = true
+			q.vp.Conn.Close()
+			q.gone = true
+			e := h.v.PumpEx(time.Second, torrent.ClsDisc)
+			if e.Code == torrent.EvNone {
+				h.note["disctimeout"]++
+				alone = false
+				continue
+			}
+			h.record(e, 11)
+		}
+		for k, q := range h.peers {
+			if k != p && !q.gone && !q.vp.Pe.Closed {
+				alone = false
+			}
+		}
+	}
 	bits := make([]bool, h.np)
 	for i := range bits {
 		bits[i] = true
 	}
 	h.send(p, 5, h.bitfieldPayload(bits))
 	h.send(p, 1, nil)
-	for i := 0; i < 120; i++ {
+	for i := 0; i < 200; i++ {
 		if h.stopped || h.v.Snapshot().Completed || h.v.Crash != "" {
 			break
 		}
@@ -701,14 +728,19 @@ func (h *leechH) finish() {
 			break
 		}
 		if !h.serve(p, true) {
-			if len(h.peers[p].out) == 0 {
-				if h.v.WriteInFlight() {
-					h.pumpWrite()
-					continue
-				}
-				break
+			if h.v.WriteInFlight() {
+				h.pumpWrite()
+				continue
 			}
+			break
 		}
+	}
+	for i := 0; i < 4 && !h.stopped && h.v.WriteInFlight() && h.v.Crash == ""; i++ {
+		h.pumpWrite()
+	}
+	// the seed is still there, unchoking, nothing is left to serve and nobody else is connected
+	if alone && !h.armed && h.usable(p) && len(h.peers[p].out) == 0 && !h.v.WriteInFlight() && h.note["msgtimeout"] == 0 && h.note["writetimeout"] == 0 {
+		h.expect = true
 	}
 }
 
@@ -798,7 +830,7 @@ func genLeech(r *rand.Rand, tier string) Case {
 			h.stepAfter()
 		}
 	}
-	h.in = append(h.in, -1)
+	h.in = append(h.in, -1, b2i(h.expect && v.Crash == ""))
 	img := h.storageImage()
 	for i := 0; i < np; i++ {
 		lo := int64(i) * l.PL
